@@ -438,86 +438,93 @@ class PdfLike:
 
 
 # --------------------------------------------------------------------------------------
-# trace validation in parallel chunks (one TLC start per chunk, linear walk inside)
+# concurrent TLC runs, chunked trace validation
 # --------------------------------------------------------------------------------------
 
 
-def validate_chunks(chk, module, cfg, records, chunk, label, threads=8):
-    """Validate `records` with the trace spec `module` in chunks run concurrently; returns the
-    list of (record index, verdict string) printed as BAD.  Bookkeeping as chk.tlc does."""
-    import json
-    from concurrent.futures import ThreadPoolExecutor
+class ManyTlc:
+    """Several TLC jobs running concurrently in threads; `finish()` waits and does the
+    bookkeeping (as chk.tlc) in the calling thread.
+    job: dict(module, cfg, label, workers=4, expect_violation=None, trace=None)."""
 
-    from harness.core import MachineryError, run_tlc, tla_json
+    _seq = 0
 
-    jobs = []
-    for c0 in range(0, len(records), chunk):
-        part = records[c0 : c0 + chunk]
-        tf = chk.scratch / f"chunk-{module}-{label.replace(' ', '_')}-{c0}.json"
-        tf.write_text(json.dumps(tla_json(part)))
-        jobs.append((c0, len(part), tf))
+    def __init__(self, chk, jobs, threads=6):
+        import json
+        from concurrent.futures import ThreadPoolExecutor
 
-    def one(job):
-        c0, ln, tf = job
-        return job, run_tlc(module, cfg, workers=1, env={"TRACE_FILE": str(tf)})
+        from harness.core import run_tlc, tla_json
 
-    bad = []
-    with ThreadPoolExecutor(max_workers=threads) as ex:
-        results = list(ex.map(one, jobs))
-    for (c0, ln, tf), r in results:
-        chk.cov["tlc_runs"].append({
-            "module": module, "cfg": str(cfg), "label": f"{label} [{c0}:{c0 + ln}]",
-            "generated": r.generated, "distinct": r.distinct, "depth": r.depth,
-            "wall_s": round(r.wall, 2),
-            "outcome": "violated:" + r.violated[1] if r.violated else ("ok" if r.completed else f"error:{r.error}"),
-        })
-        if r.violated or not r.completed:
-            raise MachineryError(f"{module} did not accept the trace chunk {c0}: {r.out[-2500:]}")
-        chk.cov["states"] += r.distinct
-        chk.cov["transitions"] += r.generated
-        chk.cov["traces_validated_against_impl"] += ln
-        for t in r.printed("BAD"):
-            bad.append((c0 + t[1] - 1, t[2]))
-        tf.unlink(missing_ok=True)
-    return bad
+        self.chk = chk
+        self.jobs = jobs
+
+        def one(k_job):
+            k, job = k_job
+            env = {}
+            if job.get("trace") is not None:
+                tf = chk.scratch / f"many-{id(self)}-{k}-{job['module']}.json"
+                tf.write_text(json.dumps(tla_json(job["trace"])))
+                env["TRACE_FILE"] = str(tf)
+            r = run_tlc(job["module"], job["cfg"], workers=job.get("workers", 4), env=env)
+            if env:
+                tf.unlink(missing_ok=True)
+            return r
+
+        self.ex = ThreadPoolExecutor(max_workers=threads)
+        self.futs = [self.ex.submit(one, kj) for kj in enumerate(jobs)]
+
+    def finish(self):
+        from harness.core import MachineryError
+
+        chk = self.chk
+        results = [f.result() for f in self.futs]
+        self.ex.shutdown()
+        for job, r in zip(self.jobs, results):
+            rec = {
+                "module": job["module"], "cfg": str(job["cfg"]), "label": job.get("label", ""),
+                "generated": r.generated, "distinct": r.distinct, "depth": r.depth,
+                "wall_s": round(r.wall, 2),
+                "outcome": "violated:" + r.violated[1] if r.violated else ("ok" if r.completed else f"error:{r.error}"),
+            }
+            chk.cov["tlc_runs"].append(rec)
+            if r.error and not r.violated:
+                raise MachineryError(f"TLC failed on {job['module']}/{job['cfg']}: {r.error}\n{r.out[-3000:]}")
+            ev = job.get("expect_violation")
+            if ev is not None:
+                if not r.violated or (ev is not True and r.violated[1] != ev):
+                    raise MachineryError(
+                        f"vacuity guard: {job['module']}/{job['cfg']} should violate {ev}, got {rec['outcome']}")
+            else:
+                chk.cov["states"] += r.distinct
+                chk.cov["transitions"] += r.generated
+        return results
 
 
 def run_many(chk, jobs, threads=6):
-    """Run several TLC jobs concurrently; bookkeeping (as chk.tlc) in the calling thread.
-    job: dict(module, cfg, label, workers=4, expect_violation=None, trace=None).  Returns the
-    TlcResults in order."""
-    import json
-    from concurrent.futures import ThreadPoolExecutor
+    return ManyTlc(chk, jobs, threads).finish()
 
-    from harness.core import MachineryError, run_tlc, tla_json
 
-    def one(k_job):
-        k, job = k_job
-        env = {}
-        if job.get("trace") is not None:
-            tf = chk.scratch / f"many-{k}-{job['module']}.json"
-            tf.write_text(json.dumps(tla_json(job["trace"])))
-            env["TRACE_FILE"] = str(tf)
-        return run_tlc(job["module"], job["cfg"], workers=job.get("workers", 4), env=env)
+def trace_jobs(module, cfg, records, nchunks, label):
+    """Split records into nchunks trace-validation jobs (linear walk each, one worker); records
+    are dealt round-robin so that heavy records spread over the chunks."""
+    nchunks = max(1, min(nchunks, len(records)))
+    jobs = []
+    for c in range(nchunks):
+        idx = list(range(c, len(records), nchunks))
+        jobs.append({"module": module, "cfg": cfg, "workers": 1, "trace": [records[k] for k in idx],
+                     "label": f"{label} [chunk {c + 1}/{nchunks}, {len(idx)} records]", "_idx": idx})
+    return jobs
 
-    with ThreadPoolExecutor(max_workers=threads) as ex:
-        results = list(ex.map(one, list(enumerate(jobs))))
+
+def trace_bad(chk, jobs, results):
+    """(record index, verdict) of the BAD lines of finished trace jobs; acceptance required."""
+    from harness.core import MachineryError
+
+    bad = []
     for job, r in zip(jobs, results):
-        rec = {
-            "module": job["module"], "cfg": str(job["cfg"]), "label": job.get("label", ""),
-            "generated": r.generated, "distinct": r.distinct, "depth": r.depth,
-            "wall_s": round(r.wall, 2),
-            "outcome": "violated:" + r.violated[1] if r.violated else ("ok" if r.completed else f"error:{r.error}"),
-        }
-        chk.cov["tlc_runs"].append(rec)
-        if r.error and not r.violated:
-            raise MachineryError(f"TLC failed on {job['module']}/{job['cfg']}: {r.error}\n{r.out[-3000:]}")
-        ev = job.get("expect_violation")
-        if ev is not None:
-            if not r.violated or (ev is not True and r.violated[1] != ev):
-                raise MachineryError(
-                    f"vacuity guard: {job['module']}/{job['cfg']} should violate {ev}, got {rec['outcome']}")
-        else:
-            chk.cov["states"] += r.distinct
-            chk.cov["transitions"] += r.generated
-    return results
+        if r.violated or not r.completed:
+            raise MachineryError(f"{job['module']} did not accept the trace {job['label']}: {r.out[-2500:]}")
+        chk.cov["traces_validated_against_impl"] += len(job["_idx"])
+        for t in r.printed("BAD"):
+            bad.append((job["_idx"][t[1] - 1], t[2]))
+    return sorted(bad)
